@@ -60,7 +60,11 @@ func LCFacts(w *World) {
 		}
 		return ""
 	}
-	w.MapValueFact = func(e *FuncEnc, mt *types.Map, val, has string) string {
+	w.MapValueFact = func(e *FuncEnc, declared types.Type, val, has string) string {
+		mt, ok := declared.Underlying().(*types.Map)
+		if !ok {
+			return ""
+		}
 		if _, ok := mt.Elem().Underlying().(*types.Pointer); ok && isOpenAPI(mt.Elem()) {
 			e.Assumed["LC: entries of openapi3 maps are non-nil"] = true
 			return implies(has, not(eq(val, "0")))
